@@ -155,4 +155,39 @@ def geAll : List Rat → List Rat → Bool
 def paretoFront (vs : List (List Rat)) : List (List Rat) :=
   vs.filter (fun v => !vs.any (fun w => w != v && geAll w v))
 
+/-! ## LocalSearch::operator()(A, graph, startAction)
+
+The agents are visited in a shuffled order drawn from the maximiser's own random engine; the model takes the sequence
+of orders as an input (one list per sweep), so every theorem about it holds for every outcome of the shuffles. -/
+
+/-- `graph.getFactors(a)` -/
+def adjNodes (v : Nat) (g : List Node) : List Node := g.filter (fun nd => nd.keys.contains v)
+
+/-- `evaluateFactors(A, factors, retAction)` with `retAction[v] = k` -/
+def evalAdj (A : List Nat) (g : List Node) (a : List Nat) (v k : Nat) : Rat := evalGraph A (setAt a v k) (adjNodes v g)
+
+/-- one agent: try every action, keep the first best (strict `>`), move only on a strict improvement -/
+def lsAgent (A : List Nat) (g : List Node) (a : List Nat) (v : Nat) : List Nat × Bool :=
+  let best := argmaxTo (A.getD v 1 - 1) (evalAdj A g a v)
+  if evalAdj A g a v (a.getD v 0) < evalAdj A g a v best then (setAt a v best, true) else (a, false)
+
+/-- one `for (auto a : agents_)` sweep in the given order; the flag is `updated` -/
+def lsSweep (A : List Nat) (g : List Node) : List Nat → List Nat × Bool → List Nat × Bool
+  | [], st => st
+  | v :: vs, st =>
+    let r := lsAgent A g st.1 v
+    lsSweep A g vs (r.1, st.2 || r.2)
+
+/-- `do { … } while (updated)`; one order per sweep (stops early when the orders run out) -/
+def lsRun (A : List Nat) (g : List Node) : List (List Nat) → List Nat → List Nat
+  | [], a => a
+  | o :: os, a =>
+    let r := lsSweep A g o (a, false)
+    if r.2 then lsRun A g os r.1 else r.1
+
+/-- the pair LocalSearch returns: the action and `evaluateGraph` of it -/
+def lsResult (A : List Nat) (g : List Node) (orders : List (List Nat)) (start : List Nat) : List Nat × Rat :=
+  let a := lsRun A g orders start
+  (a, evalGraph A a g)
+
 end AITB.VE
